@@ -63,10 +63,16 @@ func (x *Exec) constrainAlpha(b *Term, alpha string) {
 		return
 	}
 	c := x.ts.tFals
+	b.Dom = nil
+	dom := make([]uint64, 0, len(alpha))
 	for i := 0; i < len(alpha); i++ {
 		c = x.ts.Or(c, x.ts.Eq(b, x.ts.BV(8, uint64(alpha[i]))))
+		if !inDom(dom, uint64(alpha[i])) {
+			dom = append(dom, uint64(alpha[i]))
+		}
 	}
 	x.addPC(c)
+	b.Dom = dom
 }
 
 func (x *Exec) symString(min, max int, alpha string, what string) Str {
